@@ -17,7 +17,10 @@ RULE = ("harness c12: (i) formula records 120xx/121xx: every translated public *
         "shapes in which every temporary is only PARTIALLY overwritten by the inputs (plaintext container shorter / longer than the "
         "ciphertext, result shorter / longer than the operands and than the key, ranks 0..3, cross radix); this phase also runs the "
         "operations that have no take tree (oracle only): automorphism-key automorphism, tensor add_assign, mul_plain(_assign), "
-        "mul_const_assign, 20 CKKS leveled operations incl. the composites (mul_add / mul_sub / dot_product / mul_many / add_many; "
+        "mul_const_assign, 23 CKKS leveled operations incl. the composites (mul_add / mul_sub / dot_product / mul_many / add_many) and the constant "
+        "operations (mul / add / mul_add _pt_const_rnx_into with real-only, imaginary-only and complex constants), every `_into` with a destination of "
+        "more, equal and fewer limbs than the operands and plaintext log_delta below / equal / above the ciphertext's (operations that reject "
+        "their operands with Err are recorded by a marker; "
         "reference backends), CGGI blind rotation (key encryption, preparation, execute), circuit bootstrapping (constant and exponent "
         "mode), cmux / cmux_assign / cmux_assign_neg, fhe_uint preparation (prepare_custom and prepare_custom_multi_thread with 1..3 "
         "threads on exactly threads * fhe_uint_prepare_tmp_bytes bytes). Modelled with take trees since the deepening: LWE key-switch and "
@@ -62,7 +65,8 @@ OPN = {1: "vec_znx_normalize", 2: "vec_znx_normalize_assign", 3: "vec_znx_rsh", 
        183: "circuit_bootstrapping_execute", 184: "cmux", 185: "fhe_uint_prepare_custom", 186: "fhe_uint_prepare_custom_multi_thread", 187: "fhe_uint_2w_to_1w_multi_thread",
        190: "glwe_compressed_encrypt_sk", 191: "gglwe_compressed_encrypt_sk", 192: "ggsw_compressed_encrypt_sk",
        193: "glwe_switching_key_compressed_encrypt_sk", 194: "glwe_automorphism_key_compressed_encrypt_sk",
-       195: "glwe_tensor_key_compressed_encrypt_sk", 196: "gglwe_to_ggsw_key_compressed_encrypt_sk"}
+       195: "glwe_tensor_key_compressed_encrypt_sk", 196: "gglwe_to_ggsw_key_compressed_encrypt_sk",
+       197: "ckks_mul_pt_const_rnx_into", 198: "ckks_add_pt_const_rnx_into", 199: "ckks_mul_add_pt_const_rnx_into"}
 
 
 def _parse(record):
@@ -98,6 +102,8 @@ def classify(record):
         return "scratch_split_mut.unaligned_len"
     if n < 8:
         return f"{name}.small_n_unaligned"
+    if op in (163, 164, 175, 176, 177, 178) and len(ps) > 5 and 0 < ps[5] < ps[3]:
+        return "ckks_mul.operands_larger_than_res"     # ps = [be n base2k k_ct log_delta k_dst ..]
     return f"{name}.unclassified"
 
 
